@@ -260,7 +260,7 @@ def run_shard(spec, tier, seed, budget_s):
     i = spec['shard']
     rng = random.Random(f'{seed}-c17-{i}')
     k = 0
-    target = {'quick': 3, 'thorough': 120}[tier]
+    target = {'quick': 8, 'thorough': 160}[tier]
     while k < target and not sh.out_of_time():
         k += 1
         origin = 'parsed' if k % 2 else 'api'
